@@ -216,11 +216,56 @@ func sortedMapEntries(m value) (keys, vals []value) {
 		unsup("map iteration over %T", m)
 	}
 	sort.SliceStable(l, func(i, j int) bool { return l[i].s < l[j].s })
+	// Go's map iteration order is unspecified: for small maps every order
+	// is explored (a fork over the permutations), for larger ones every
+	// rotation and its reverse.
+	if n := len(l); n >= 2 && curPC != nil {
+		var perms [][]int
+		if n <= 3 {
+			perms = permutations(n)
+		} else {
+			for r := 0; r < n; r++ {
+				p, q := make([]int, n), make([]int, n)
+				for k := 0; k < n; k++ {
+					p[k] = (k + r) % n
+					q[k] = (n - 1 - k + r) % n
+				}
+				perms = append(perms, p, q)
+			}
+		}
+		// one choice per path, shared by every map iteration of the path
+		if mapOrderChoice < 0 {
+			mapOrderChoice = curPC.choose(len(perms))
+		}
+		c := mapOrderChoice % len(perms)
+		l2 := make([]kv, n)
+		for k, idx := range perms[c] {
+			l2[k] = l[idx]
+		}
+		l = l2
+	}
 	for _, e := range l {
 		keys = append(keys, e.k)
 		vals = append(vals, e.v)
 	}
 	return
+}
+
+// mapOrderChoice is the permutation index picked for this path (-1: not yet).
+var mapOrderChoice = -1
+
+func permutations(n int) [][]int {
+	if n == 1 {
+		return [][]int{{0}}
+	}
+	var out [][]int
+	for _, p := range permutations(n - 1) {
+		for pos := 0; pos <= len(p); pos++ {
+			q := append(append(append([]int{}, p[:pos]...), n-1), p[pos:]...)
+			out = append(out, q)
+		}
+	}
+	return out
 }
 
 func init() {
